@@ -491,7 +491,7 @@ func (w *World) Start(idx int, spec ProcSpec) *Proc {
 	cmd.ExtraFiles = []*os.File{cr, pw}
 	cmd.Env = append([]string{"ERGOSIM_CTL=3,4", "HOME=/nonexistent", "PATH=/usr/bin:/bin", "GOMAXPROCS=" + w.GoMax, "PWD=" + spec.Cwd, "TERM=dumb", "COLUMNS=100"}, spec.Env...)
 	if err := cmd.Start(); err != nil {
-		harnessf("start %s: %v", w.Bin, err)
+		harnessf("start %s: %v (argv %q)", w.Bin, err, spec.Argv)
 	}
 	cr.Close()
 	pw.Close()
